@@ -8,7 +8,7 @@ RULE = (
 )
 ASSUMPTIONS = ["shares compared exactly; cash within 1e-11 x (|endowment| + sum |flows|) per agent",
                "fills are taken from the matching rounds' return values (independent of the logger)"]
-BUDGET = {"quick": 300, "thorough": 8000}
+BUDGET = {"quick": 300, "thorough": 48000}
 REQUIRED = {
     "quick": {"fills": 3000, "class/run_with_self_trade": 20, "class/run_with_round_of_3plus_fills": 20,
               "class/run_with_fills_on_hft_path": 20, "holdings_comparisons": 20000, "total_checks": 1000},
